@@ -24,8 +24,8 @@ type TSpec struct {
 	Test        string // Go test function
 	Checks      [2]int // rapid checks in total (quick, thorough), split over the shards
 	Shards      [2]int
-	Fuzz        string           // native fuzz target (thorough tier only)
-	FuzzTime    time.Duration    // per campaign
+	Fuzz        string        // native fuzz target (thorough tier only)
+	FuzzTime    time.Duration // per campaign
 	Rule        string
 	Assumptions []string
 	Env         []string
